@@ -2,7 +2,76 @@ import ArmiVerif.Model.Proto
 import ArmiVerif.Model.Hex
 open ArmiVerif ArmiVerif.Proto ArmiVerif.Hex
 
+/-
+C08 additions:
+  indomain third overlap i j      hexequiv sym i j       pivot [rats] p
+  rotblock rotNum hasGrid orientation CHILDREN BOUNDARY DISP
+    CHILDREN = [child,...]  child = [m,[i,j,k],...] | [c,x,y,z] | [i,i,j,k] | [n]
+    BOUNDARY = [[rats],...]   DISP = _ | [x,y]
+  answer: orientation|children|boundary|disp with numbers re+ir*sqrt3 printed as (re,ir)
+-/
+def showQ3 (q : Q3) : String := "(" ++ showRat q.re ++ "," ++ showRat q.ir ++ ")"
+
+def parseCell? (s : String) : Option (Int × Int × Int) :=
+  match parseIntList? s with
+  | some [i, j, k] => some (i, j, k)
+  | _ => none
+
+def parseChild? (s : String) : Option ChildLoc := do
+  let parts ← splitTop s
+  match parts with
+  | "m" :: cells => (cells.mapM parseCell?).map ChildLoc.multi
+  | ["c", x, y, z] => do
+      let x ← parseRat? x; let y ← parseRat? y; let z ← parseRat? z
+      some (.coord (Q3.ofRat x) (Q3.ofRat y) z)
+  | ["i", i, j, k] => do
+      let i ← parseInt? i; let j ← parseInt? j; let k ← parseInt? k
+      some (.index i j k)
+  | ["n"] => some .none
+  | _ => none
+
+def showCell (c : Int × Int × Int) : String :=
+  "[" ++ toString c.1 ++ "," ++ toString c.2.1 ++ "," ++ toString c.2.2 ++ "]"
+
+def showChild : ChildLoc → String
+  | .multi cells => "[m" ++ String.join (cells.map (fun c => "," ++ showCell c)) ++ "]"
+  | .coord x y z => "[c," ++ showQ3 x ++ "," ++ showQ3 y ++ "," ++ showRat z ++ "]"
+  | .index i j k => "[i," ++ toString i ++ "," ++ toString j ++ "," ++ toString k ++ "]"
+  | .none => "[n]"
+
+def showBlock (b : Block) : String :=
+  showRat b.orientation ++ "|" ++ showList showChild b.children ++ "|" ++
+    showList (showList showRat) b.boundary ++ "|" ++
+    (match b.disp with
+     | none => "_"
+     | some d => "[" ++ showQ3 d.1 ++ "," ++ showQ3 d.2 ++ "]")
+
 def answer : List String → String
+  | ["indomain", th, ov, i, j] => match parseBool? th, parseBool? ov, parseInt? i, parseInt? j with
+      | some th, some ov, some i, some j => showBool (hexInDomain th ov (i, j))
+      | _, _, _, _ => "bad-op"
+  | ["hexequiv", sy, i, j] => match parseNat? sy, parseInt? i, parseInt? j with
+      | some sy, some i, some j => showOpt (showList showPair) (hexEquivalents sy (i, j))
+      | _, _, _ => "bad-op"
+  | ["pivot", l, p] => match parseRatList? l, parseInt? p with
+      | some l, some p => showList showRat (pivot l p)
+      | _, _ => "bad-op"
+  | ["rotblock", rn, hg, ori, ch, bd, dp] =>
+      match parseInt? rn, parseBool? hg, parseRat? ori, parseList? parseChild? ch,
+            parseList? parseRatList? bd with
+      | some rn, some hg, some ori, some ch, some bd =>
+        let disp : Option (Option (Q3 × Q3)) :=
+          if dp = "_" then some none else
+          match parseRatList? dp with
+          | some [x, y] => some (some (Q3.ofRat x, Q3.ofRat y))
+          | _ => none
+        (match disp with
+         | none => "bad-op"
+         | some d =>
+           if rn < 0 ∨ rn > 6 then "bad-op" else
+           showBlock (rotateBlock rn { hasGrid := hg, children := ch, orientation := ori,
+                                       boundary := bd, disp := d }))
+      | _, _, _, _, _ => "bad-op"
   | ["ringpos", i, j] => match parseInt? i, parseInt? j with
       | some i, some j => showPair (toRingPos i j)
       | _, _ => "bad-op"
